@@ -197,3 +197,21 @@ Theorem refresh_never_unblocks : forall dl s q,
   bl_exists (s_mem s) q = true -> bl_exists (s_mem (sys_refresh dl s)) q = true.
 Proof. exact refresh_never_unblocks_lemma. Qed.
 Print Assumptions refresh_never_unblocks.
+
+(* ---- session 3 *)
+
+(* a step of persist() that RETURNS AN ERROR (CreateTemp, a write after any number of
+   bytes, Sync, Close, Rename — k counts the steps of Model.persist_steps): the directory
+   is exactly what it was, `local` is the previous complete file and no temp file is left *)
+Theorem io_error_leaves_previous_file : forall d s k j,
+  (k < length (persist_steps s))%nat -> fail_at d s k j = d.
+Proof. exact fail_at_leaves_disk. Qed.
+Print Assumptions io_error_leaves_previous_file.
+
+(* ... the four named steps the fault-injection cases use are such steps, and with no
+   failing step the run is the complete one *)
+Theorem io_error_steps_cover : forall d s,
+  (forall which, (which < 4)%nat -> fail_at d s (fault_step s which) 0 = d) /\
+  (forall k j, (length (persist_steps s) <= k)%nat -> fail_at d s k j = mk_disk (Some (snap_bytes s)) (d_temps d)).
+Proof. exact io_error_steps_cover_lemma. Qed.
+Print Assumptions io_error_steps_cover.
